@@ -106,6 +106,12 @@ def check_index(ix, model, what, auto=False):
         if depth == 1:
             need(not isinstance(e, Raised) and eq(canon(e), cm[i]), 'iloc', 'iloc[%d] = %r expected %r' % (i, e, lab))
         else:
+            if (not isinstance(e, Raised) and any(isinstance(x, tuple) for x in lab)
+                    and eq(canon(tuple(e)), canon(tuple(y for x in lab for y in (x if isinstance(x, tuple) else (x,)))))):
+                # known finding (a tuple held as a label is flattened by a single-position selection): reported at the
+                # end of the case, so that the other views and the derivations are still judged
+                DEFERRED.append(('iloc', '%s: iloc[%d] = %r expected %r' % (what, i, e, lab)))
+                continue
             need(not isinstance(e, Raised) and eq(canon(tuple(e)), cm[i]), 'iloc', 'iloc[%d] = %r expected %r' % (i, e, lab))
     if depth > 1 and n:
         # a key with more components than the depth, and a proper prefix of a label, are not labels
@@ -124,7 +130,7 @@ def check_index(ix, model, what, auto=False):
         if not isinstance(g, Raised):
             if auto and isinstance(a, int) and a < 0:
                 # known finding: reported at the end of the case so the derivations are still explored
-                DEFERRED.append('%s: loc_to_iloc(absent %r) returned %r' % (what, a, g))
+                DEFERRED.append(('no-raise', '%s: loc_to_iloc(absent %r) returned %r' % (what, a, g)))
                 continue
             raise Failure('no-raise', '%s: loc_to_iloc(absent %r) returned %r' % (what, a, g))
         # C02 claims membership and the bijection; *which* error an absent lookup raises is C04's claim
@@ -174,6 +180,9 @@ def base(draw):
     if kind == 'ih':
         n = max(n, 1)
         labels = draw(gen.tree_labels_n(n))
+        if draw(st.integers(0, 5)) == 5:
+            # tuples as labels of the outermost depth (a label is any hashable; the depth below still separates them)
+            labels = [((t[0], 0),) + tuple(t[1:]) for t in labels]
         return {'kind': 'ih', 'labels': labels, 'route': draw(st.sampled_from(['from_labels', 'reorder'])), 'go': go, 'token': draw(st.booleans()),
                 'perm': draw(st.permutations(list(range(len(labels)))))}
     if kind == 'ih_product':
@@ -302,7 +311,7 @@ def check(case):
     del DEFERRED[:]
     info = _check(case)
     if DEFERRED:
-        raise Failure('no-raise', DEFERRED[0])
+        raise Failure(*DEFERRED[0])
     return info
 
 
@@ -764,7 +773,7 @@ def check_go(case):
             pass
         check_index(r, want, 'derived by %s, re-read at end' % route)
     if DEFERRED:
-        raise Failure('no-raise', DEFERRED[0])
+        raise Failure(*DEFERRED[0])
     if stale_derive:
         classes.append('derive-after-unobserved-growth')
     return {'nt': stale_derive or (grown and bool(derived)), 'cls': classes}
@@ -843,6 +852,9 @@ def tag(case, f):
         return 'level-drop-cannot-merge-equal-labels-from-adjacent-parents'
     if case.get('base', {}).get('kind') == 'auto' and f.kind == 'no-raise' and 'loc_to_iloc(absent -' in f.detail:
         return 'auto-index-loc-to-iloc-passthrough'
+    # a hierarchy holding a tuple as a label: selecting one position flattens that tuple into the returned label
+    if f.kind == 'iloc' and any(isinstance(x, tuple) for t in case.get('base', {}).get('labels', []) if isinstance(t, tuple) for x in t):
+        return 'hierarchy-single-position-flattens-tuple-label'
     return None
 
 
